@@ -21,8 +21,12 @@ import Glom.Model.C14Env
                   scope variable `name` — `glom(other, spec, scope={name: target})`; modelled as the
                   T-rooted evaluation on the same data: the first step names the variable
                   (`_s_first_magic`), the remainder after a wildcard is rooted at T (facts obligation)),
+          "pre": [[op, addr]…]  (lookups made before the call; the model's handler choice does not depend on them),
           "impl": {"read": {"out": {"ok":LRes} | "pae" | {"other":cls}, "heap":[Obj…], "calls":[[addr,name]…]}}
-                  | "pae" | {"other":cls} | {"mutated":[Obj…],"err":cls|null} | "timeout" | "skip"}
+                  | {"mutated":[Obj…],"err":cls|null,"same":bool} | {"pae":[Obj…]} | {"other":cls}
+                  | {"co": …} | "timeout" | {"outside": reason}}
+  every field is required (`sroot`, `co`, `mut` may be null); a case outside the model is answered with
+  the branch "outside:<reason>" (agree and holds true, never non-trivial) so that the histogram counts it
   a `t` part may contain a method call: [".", {"s": name}] followed by ["(", [Val…]] (the arguments);
   modelled names: pop, append, __next__, fail (anything else: the case is skipped)
   LRes:  {"v":Val} | {"l":[LRes…], "id": n}      (n: the identity of that list object, renumbered)
@@ -149,35 +153,35 @@ def clsOfJson (j : Json) : Except String (String × ClsInfo) := do
     return (← strOfJson n, { mro := ← listOfJson strOfJson (← i.getObjVal? "mro"),
                               hasDict := ← i.getObjValAs? Bool "dict",
                               iterable := ← i.getObjValAs? Bool "iter",
-                              reg := (i.getObjValAs? String "reg").toOption.getD "" })
+                              reg := ← i.getObjValAs? String "reg" })
   | _ => throw s!"bad class entry {j.compress}"
 
-def obsOfJson (j : Json) : Except String (Option Obs) := do
-  match j with
-  | .str "pae" => return some .pae
-  | .str "timeout" => return none
-  | _ =>
-    if let .ok r := j.getObjVal? "ok" then return some (.ok (← resOfJson r))
-    else if let .ok c := j.getObjValAs? String "other" then return some (.other c)
-    else if let .ok hp := j.getObjVal? "mutated" then
-      let err ← (match j.getObjVal? "err" with
-        | .ok (.str s) => pure (some s)
-        | _ => pure none : Except String (Option String))
-      return some (.mutated (← heapOfJson hp) err)
-    else throw s!"bad obs {j.compress}"
+/-- the observation of an Assign / Delete: {"mutated":[Obj…],"err":cls|null,"same":bool}
+    | {"pae":[Obj…]} (the heap after a PathAccessError) | {"other":cls} -/
+def obsOfJson (j : Json) : Except String Obs := do
+  if let .ok hp := j.getObjVal? "mutated" then
+    let err ← (match ← j.getObjVal? "err" with
+      | .str s => pure (some s)
+      | .null => pure none
+      | x => throw s!"err: a class name or null expected, got {x.compress}" : Except String (Option String))
+    return .mutated (← heapOfJson hp) err (← j.getObjValAs? Bool "same")
+  else if let .ok hp := j.getObjVal? "pae" then return .paeAt (← heapOfJson hp)
+  else if let .ok c := j.getObjValAs? String "other" then return .other c
+  else throw s!"bad obs {j.compress}"
 
 def obsToJson : Obs → Json
   | .ok r => Json.mkObj [("ok", resToJson r)]
   | .pae => Json.str "pae"
   | .other c => Json.mkObj [("other", c)]
-  | .mutated h e => Json.mkObj [("mutated", heapToJson h),
-      ("err", match e with | some s => Json.str s | none => Json.null)]
+  | .mutated h e sm => Json.mkObj [("mutated", heapToJson h),
+      ("err", match e with | some s => Json.str s | none => Json.null), ("same", sm)]
+  | .paeAt h => Json.mkObj [("pae", heapToJson h)]
+  | .backfill => Json.str "backfill"
 
 def obsEq : Obs → Obs → Bool
-  | .ok a, .ok b => Res.beq a b
-  | .pae, .pae => true
   | .other a, .other b => a == b
-  | .mutated h e, .mutated h' e' => h == h' && e == e'
+  | .mutated h e sm, .mutated h' e' sm' => h == h' && e == e' && (e.isSome || sm == sm')
+  | .paeAt h, .paeAt h' => h == h'
   | _, _ => false
 
 def stepOfJson (j : Json) : Except String (String × Val) := pairOfJson strOfJson valOfJson j
@@ -187,25 +191,54 @@ def partOfJson (j : Json) : Except String Glom.C01.Part := do
   else if let .ok t := j.getObjVal? "t" then return .t (← listOfJson stepOfJson t)
   else throw s!"bad part {j.compress}"
 
+/-- a case outside the modelled domain: counted in the histogram under its reason (never a failure,
+    never a non-trivial case) -/
+def outside (reason : String) : Json :=
+  Json.mkObj [("agree", true), ("holds", true), ("outside", true), ("model", Json.null),
+    ("timeout", false), ("branch", Json.str s!"outside:{reason}")]
+
+/-- the classes whose assignment / deletion behaviour is not the five layouts' (C11 / C12 / C13) -/
+def catalogueCell (cs : Classes) (o : Obj) : Bool :=
+  (clsInfo cs o.cls).reg != "" ||
+  (match o with
+   | .dict c _ => !(isA cs c "dict")
+   | .inst c _ => !((clsInfo cs c).hasDict) || isA cs c "UserDict"
+   | _ => false)
+
+def heapInDomain (cs : Classes) (heap : Heap) : Bool :=
+  heapWF cs heap && classesWF cs &&
+  heap.all (fun o => match o with | .inst c as => userDictOK cs heap c as | _ => true)
+
+/-- a field that must be present: `null` or an object -/
+def nullOrObj (j : Json) (k : String) : Except String (Option Json) := do
+  match ← j.getObjVal? k with
+  | .null => return none
+  | .obj o => return some (Json.obj o)
+  | x => throw s!"field {k}: null or an object expected, got {x.compress}"
+
 def run (j : Json) : Except String Json := do
   let cs ← listOfJson clsOfJson (← j.getObjVal? "classes")
   let heap ← heapOfJson (← j.getObjVal? "heap")
   let target ← valOfJson (← j.getObjVal? "target")
-  let pathStar := (j.getObjValAs? Bool "path_star").toOption.getD true
-  if (← j.getObjVal? "impl") == Json.str "skip" then
-    return Json.mkObj [("skip", true), ("why", "two heap cells decoded to one interned object / a harness class outside its modelled use")]
+  let pathStar ← j.getObjValAs? Bool "path_star"
+  let implJ ← j.getObjVal? "impl"
+  let sroot := (← nullOrObj j "sroot").isSome
+  let coJ ← nullOrObj j "co"
+  let mutJ ← nullOrObj j "mut"
+  -- the harness says the case is outside the reading (and why)
+  if let .ok r := implJ.getObjValAs? String "outside" then
+    return outside r
+  if !(heapInDomain cs heap) then
+    return outside "heap-not-wf"
   -- ---------------------------------------------------------------- Coalesce / default
-  if let .ok (.obj co) := j.getObjVal? "co" then
-    let coJ := Json.obj co
-    if !(heapWF cs heap && classesWF cs) then
-      return Json.mkObj [("skip", true), ("why", "heap / class table not well-formed")]
+  if let some coJ := coJ then
     let alts ← (← arrOf (← coJ.getObjVal? "alts")).mapM (fun a => do
       pairsOfRawParts (← rawPartsOfSpelling pathStar a))
     let hasD ← coJ.getObjValAs? Bool "default"
     let via ← coJ.getObjValAs? String "via"
+    if !(via == "glom" || via == "coalesce") then throw s!"co.via: {via}"
     let m := if via == "glom" then glomDefault cs heap target hasD (alts.headD []) else coalesce cs heap target hasD alts 0
     let ref := refCoalesce cs heap target hasD alts
-    let implJ ← j.getObjVal? "impl"
     if implJ == Json.str "timeout" then
       return Json.mkObj [("agree", false), ("holds", false), ("model", coOutToJson m), ("timeout", true), ("branch", "co-timeout")]
     let o ← obsCoOfJson (← implJ.getObjVal? "co")
@@ -220,36 +253,41 @@ def run (j : Json) : Except String Json := do
   let sp ← j.getObjVal? "spelling"
   let rawParts ← rawPartsOfSpelling pathStar sp
   let stepsS ← stepsOfRawParts rawParts
-  let mutJ := (j.getObjVal? "mut").toOption.getD Json.null
+  -- the arithmetic steps the model knows add a number
+  for st in stepsS do
+    match st with
+    | .acc "+" a => if (asIndex a).isNone then throw "an arithmetic step must add a number"
+    | _ => pure ()
   let mutK : Option MutKind ← (match mutJ with
-    | .null => pure none
-    | m => do
+    | none => pure none
+    | some m => do
       let k ← m.getObjValAs? String "kind"
       -- the final op is filled in below from the spelling of the last step
       if k == "assign" then
-        let missing := match m.getObjVal? "missing" with | .ok (.str _) => true | _ => false
+        let missing ← (match ← m.getObjVal? "missing" with
+          | .null => pure false
+          | .str _ => pure true
+          | x => throw s!"mut.missing: {x.compress}" : Except String Bool)
         return some (.assign "P" (← valOfJson (← m.getObjVal? "val")) missing)
-      else
-        let ignore := (m.getObjValAs? Bool "ignore").toOption.getD false
-        return some (.delete "P" ignore) : Except String (Option MutKind))
-  if !(heapWF cs heap && classesWF cs) then
-    return Json.mkObj [("skip", true), ("why", "heap / class table not well-formed")]
+      else if k == "delete" then
+        return some (.delete "P" (← m.getObjValAs? Bool "ignore"))
+      else throw s!"mut.kind: {k}" : Except String (Option MutKind))
   -- wildcard statistics for the histogram
   let nx := (stepsS.filter (fun s => match s with | .star => true | _ => false)).length
   let nX := (stepsS.filter (fun s => match s with | .starstar => true | _ => false)).length
   let nc := (stepsS.filter (fun s => match s with | .call .. => true | _ => false)).length
-  let sroot := match j.getObjVal? "sroot" with | .ok (.obj _) => true | _ => false
-  let implJ ← j.getObjVal? "impl"
+  let na := (stepsS.filter (fun s => match s with | .acc "+" _ => true | _ => false)).length
+  let pre := (if sroot then "S:" else "") ++ (if pathStar then "" else "staroff:")
   -- ---------------------------------------------------------------- a read
   if mutK.isNone then
     let m := modelReadS cs heap stepsS target
     if unmodelledObs m then
-      return Json.mkObj [("skip", true), ("why", "a call outside the modelled vocabulary")]
+      return outside "unmodelled-call"
     let m := if sroot && !(remainderAtT "S") then
         { m with out := OutS.other "the remainder of an S-rooted wildcard path restarts from the scope" } else m
     if implJ == Json.str "timeout" then
       return Json.mkObj [("agree", false), ("holds", false), ("model", obsSToJson m), ("timeout", true),
-        ("branch", (if sroot then "S:" else "") ++ s!"read-x{nx}-X{nX}-timeout")]
+        ("branch", pre ++ s!"read-x{nx}-X{nX}-timeout")]
     let o ← obsSOfJson (← implJ.getObjVal? "read")
     let holds := checkC14S cs heap stepsS target o
     let outcome := match m.out with
@@ -258,57 +296,42 @@ def run (j : Json) : Except String Json := do
       | .pae => "pae"
       | .other c => c
     return Json.mkObj [("agree", obsSEq m o), ("holds", holds), ("model", obsSToJson m), ("timeout", false),
-      ("branch", (if sroot then "S:" else "") ++ (if pathStar then "" else "staroff:") ++ s!"read-x{nx}-X{nX}" ++ (if nc > 0 then s!"-c{nc}" else "")
+      ("branch", pre ++ s!"read-x{nx}-X{nX}" ++ (if nc > 0 then s!"-c{nc}" else "") ++ (if na > 0 then s!"-a{na}" else "")
         ++ (if m.heap == heap then "" else "-mutated") ++ s!"-{outcome}")]
   -- ---------------------------------------------------------------- Assign / Delete
-  if heap.any (fun o => (clsInfo cs o.cls).reg != "") then
-    return Json.mkObj [("skip", true), ("why", "Assign / Delete on a target with user-registered types (assign handlers: C11-C13)")]
+  if heap.any (catalogueCell cs) then
+    return outside "mutation-on-catalogue-type"
   let allSteps ← pairsOfRawParts rawParts
-  let implObs ← obsOfJson implJ
-  let (modelObs, holds, kindStr) ← (match mutK with
-    | none =>
-      let m := modelRead cs heap allSteps target
-      let hd := match implObs with
-        | some o => checkC14 cs heap allSteps none target o
-        | none => false
-      pure (m, hd, "read")
-    | some kind0 =>
-      match allSteps.reverse with
-      | (op, key) :: revInit =>
-        if !(op == "P" || op == "[" || op == ".") then throw "mutation path must end in a plain / item / attribute step" else
-        let kind : MutKind := match kind0 with
-          | .assign _ v m => .assign op v m
-          | .delete _ ig => .delete op ig
-        let steps := revInit.reverse
-        let m := modelMutate cs heap steps key kind target
-        let hd := match implObs with
-          | some o => checkC14 cs heap steps (some (key, kind)) target o
-          | none => false
-        pure (m, hd, match kind with
-          | .assign o _ ms => s!"assign{o}" ++ (if ms then "+missing" else "")
-          | .delete o ig => s!"delete{o}" ++ (if ig then "+ignore" else ""))
-      | _ => throw "mutation path must end in a plain segment" : Except String (Obs × Bool × String))
+  let kind0 ← (match mutK with | some k => pure k | none => throw "unreachable" : Except String MutKind)
+  let (steps, key, kind) ← (match allSteps.reverse with
+    | (op, key) :: revInit =>
+      if !(op == "P" || op == "[" || op == ".") then throw "mutation path must end in a plain / item / attribute step" else
+      pure (revInit.reverse, key, (match kind0 with
+        | .assign _ v m => MutKind.assign op v m
+        | .delete _ ig => MutKind.delete op ig))
+    | _ => throw "mutation path must end in a plain segment" : Except String (List (String × Val) × Val × MutKind))
+  let modelObs := modelMutate cs heap steps key kind target
   -- `missing=` is consulted only when the path fails before its first wildcard: C11's subject
-  if (match mutK, modelObs with | some (.assign _ _ true), .pae => true | _, _ => false) then
-    return Json.mkObj [("skip", true), ("why", "Assign(missing=) whose path fails before the first wildcard (C11)")]
+  if (match modelObs with | .backfill => true | _ => false) then
+    return outside "C11-backfill"
   -- an S-rooted spelling: the model is the T-rooted evaluation of the same data only as far as the
   -- remainder after a wildcard is rooted at T in the source read on this run
   let modelObs := if sroot && !(remainderAtT "S") then
       Obs.other "the remainder of an S-rooted wildcard path restarts from the scope" else modelObs
-  let agree := match implObs with
-    | some o => obsEq modelObs o
-    | none => false
-  -- was anything dropped / shared / cyclic?  (for the histogram)
+  let kindStr := match kind with
+    | .assign o _ ms => s!"assign{o}" ++ (if ms then "+missing" else "")
+    | .delete o ig => s!"delete{o}" ++ (if ig then "+ignore" else "")
   let outcome := match modelObs with
-    | .ok (.list xs) => if xs.isEmpty then "empty" else "list"
-    | .ok (.val _) => "value"
-    | .pae => "pae"
     | .other c => c
-    | .mutated _ (some e) => e
-    | .mutated _ none => "done"
-  return Json.mkObj [("agree", agree), ("holds", holds),
-    ("model", obsToJson modelObs),
-    ("timeout", implObs.isNone),
-    ("branch", (if sroot then "S:" else "") ++ (if pathStar then "" else "staroff:") ++ s!"{kindStr}-x{nx}-X{nX}-{outcome}")]
+    | .mutated _ (some e) _ => e
+    | .mutated _ none _ => "done"
+    | .paeAt _ => "pae"
+    | _ => "?"
+  let branch := pre ++ s!"{kindStr}-x{nx}-X{nX}-{outcome}"
+  if implJ == Json.str "timeout" then
+    return Json.mkObj [("agree", false), ("holds", false), ("model", obsToJson modelObs), ("timeout", true), ("branch", branch)]
+  let o ← obsOfJson implJ
+  return Json.mkObj [("agree", obsEq modelObs o), ("holds", checkC14 cs heap steps (some (key, kind)) target o),
+    ("model", obsToJson modelObs), ("timeout", false), ("branch", branch)]
 
 end Glom.C14.Driver
